@@ -8,6 +8,10 @@ for d in sorted(glob.glob(os.path.join(HERE, "seeded", "*"))):
     if only and sid not in only:
         continue
     prop = sid.split("-")[0]
+    meta = json.load(open(os.path.join(d, "meta.json")))
+    if meta.get("retired"):
+        print(f"{sid}: retired (no longer breaks the property on the current tree)", flush=True)
+        continue
     if subprocess.run("git -C /repo status --short | grep -q .", shell=True).returncode == 0:
         print("repo dirty"); sys.exit(2)
     p = subprocess.run(["git", "-C", "/repo", "apply", "--3way", os.path.join(d, "patch.diff")], stdout=subprocess.PIPE, stderr=subprocess.STDOUT)
